@@ -83,7 +83,19 @@ class Layout:
                     self.idents[ident(i, rel)] = [i, [("__init__.py" if t == "__init__.py!" else t) for t in rel]]
 
     def search_paths(self) -> list:
-        """What the user passes: p1, p2 (p3 is reachable through the .pth file only)."""
+        """What the user passes: p1, p2 (p3 is reachable through the .pth file only); with given = only1 / only2 just
+        that one (the other is reached through a request by the path of its package directory)."""
+        given = self.case.get("given", "both")
+        if given == "only1":
+            return [str(self.paths[1])]
+        if given == "only2":
+            return [str(self.paths[2])]
+        return [str(self.paths[1]), str(self.paths[2])]
+
+    def reference_paths(self) -> list:
+        """sys.path for the CPython oracle: the parent of a directory requested from outside the search paths comes first."""
+        if self.case.get("given", "both") == "only1":
+            return [str(self.paths[2]), str(self.paths[1])]
         return [str(self.paths[1]), str(self.paths[2])]
 
     def fid(self, p) -> list | None:
